@@ -666,6 +666,25 @@ def check_precedence(case):
                     f"effective={obs!r} (layer: {which_layer(obs)}) expected={want!r} (layer: {layer}) :: {res.brief()}",
                 )
 
+    # ... and every other option the subcommand takes given explicitly at once (free-form ones with a non-empty value)
+    others = [o for o in CLI_ACCEPT.get(sub, ()) if o != opt]
+    if len(others) >= 2:
+        argv3 = list(argv)
+        for o in others:
+            argv3 += cli_flags(o, DEFAULT[o] if o in (_L, _N, _I, _O) else CANDIDATES[o][0], "long")
+        res = run_cli(argv3, stdin, build_files(case, False))
+        if res.exc is not None:
+            raise res.exc
+        obs = scen.observe(res, exp, stdin)
+        if obs is not None:
+            cls.append("nt:all-other-options-explicit")
+            if obs != want:
+                f.add(
+                    f"precedence/{name}/{opt}/{clause(which_layer(obs))}/with-all-other-options-explicit",
+                    f"argv={argv3} files={ {k: v.decode() for k, v in build_files(case, False).items()} } "
+                    f"effective={obs!r} (layer: {which_layer(obs)}) expected={want!r} (layer: {layer}) :: {res.brief()}",
+                )
+
     clean_ok = None
     for unknown in (False, True) if has_file else (False,):
         res = run_cli(argv, stdin, build_files(case, unknown))
@@ -986,7 +1005,7 @@ def targets(tier):
             enumerate_=enumerate_precedence,
             exhaustive=True,
             required=[
-                "nt:flag-before-subcommand", "nt:variant/base58[--check]", "nt:variant/base58[--decode --check]", "nt:variant/mnemonic[--to-seed]", "nt:variant/sig[--verify]",
+                "nt:flag-before-subcommand", "nt:all-other-options-explicit", "nt:variant/base58[--check]", "nt:variant/base58[--decode --check]", "nt:variant/mnemonic[--to-seed]", "nt:variant/sig[--verify]",
                 "nt:variant/pubkey[private-key-input]", "nt:variant/bech32[--witness-version]", "nt:variant/addr[base58-address]",
                 "nt:cli-over-file",
                 "nt:cli-over-default",
